@@ -1,9 +1,9 @@
 (* C16 -- Reset, reinit and reuse of holders and emitters leave no residue: property theorems (statements only; proofs are
    in Lifecycle/ResetProofs.v and, for the data extracted from the working tree, in gen/ResetFields.v). *)
 From Coq Require Import String List Bool.
-From Coq Require Import NArith.
+From Coq Require Import NArith ZArith.
 From Verif Require Import Lifecycle.ResetSpec Lifecycle.ResetProofs Lifecycle.LifecycleModel Lifecycle.LifecycleProofs.
-From Verif Require Builder.BuilderModel Builder.BuilderLinks Lifecycle.BuilderDirty.
+From Verif Require Builder.BuilderModel Builder.BuilderProofs Builder.BuilderGrouping Builder.BuilderLinks Builder.BuilderSections Lifecycle.BuilderDirty Lifecycle.BuilderLifecycle.
 From VerifGen Require Import ResetFields.
 Import ListNotations.
 Local Open Scope string_scope.
@@ -44,6 +44,41 @@ Theorem C16_covered_means_written :
        exists w, from_route funcs r w /\ w_class w = c /\ w_field w = f /\ w_sub w = sub /\ w_how w = sp_how s /\ applies_prop r w).
 Proof. exact (covered_means_written funcs). Qed.
 Print Assumptions C16_covered_means_written.
+
+(* ------------------------------------------------------------------ properties of the coverage checker itself *)
+(* guard conditions are compared by the structure of the AST and the comparison is EXACT *)
+Theorem C16_guard_equality_exact :
+  (forall x y, cexpr_eqb x y = true <-> x = y) /\ (forall x y, gcomp_eqb x y = true <-> x = y).
+Proof. split; [exact cexpr_eqb_spec | exact gcomp_eqb_spec]. Qed.
+Print Assumptions C16_guard_equality_exact.
+
+(* an accepted nesting level IS an error exit or one of the reviewed guards of the route *)
+Theorem C16_guard_ok_exact :
+  forall r g, guard_ok r g = true -> forall c, In c g -> c = GErrExit \/ In c (r_guards r).
+Proof. exact guard_ok_exact. Qed.
+Print Assumptions C16_guard_ok_exact.
+
+(* the checker is monotone: more writes on a route (more reset code) never un-cover a member *)
+Theorem C16_checker_monotone :
+  forall r ws1 ws2 c f, incl ws1 ws2 -> covered r ws1 c f = true -> covered r ws2 c f = true.
+Proof. exact covered_monotone. Qed.
+Print Assumptions C16_checker_monotone.
+
+(* the list of uncovered members is complete: a member that is neither covered nor persistent on a route is reported by name *)
+Theorem C16_uncovered_complete :
+  forall cs fs r c f, In r routes -> In c (r_classes r) -> In f (fields_of cs c) ->
+    covered r (route_writes fs r) c f = false -> is_persistent r c f = false -> In (r_name r, c, f) (uncovered cs fs).
+Proof. exact uncovered_complete. Qed.
+Print Assumptions C16_uncovered_complete.
+
+(* the callee closure the checker uses for a FollowAll root contains EVERY extracted function that is reachable from the root
+   through extracted call edges (re-checked on the data of every run: gen/ResetFields.reach_closed_ok) -- the verdicts are
+   computed over the whole reset route, not over a fuel-truncated part of it *)
+Theorem C16_route_closure_complete :
+  forall r rt, In r routes -> In rt (r_roots r) -> rt_follow rt = FollowAll ->
+    forall n, calls_star funcs (rt_fn rt) n -> func_exists funcs n = true -> In n (route_funcs funcs r).
+Proof. exact (route_closure_complete funcs reach_closed_ok). Qed.
+Print Assumptions C16_route_closure_complete.
 
 (* the virtual / cross-object calls that glue the roots of a route together are present in the tree *)
 Theorem C16_route_glue_calls_present : forall a b, In (a, b) must_call -> In b (calls_of funcs a).
@@ -133,6 +168,150 @@ Theorem C16_builder_history_irrelevant :
 Proof. exact BuilderDirty.builder_history_irrelevant. Qed.
 Print Assumptions C16_builder_history_irrelevant.
 
+(* ------------------------------------------------------------------ whole Builder / Compiler lifecycles on C08's node-list model
+   (Lifecycle/BuilderLifecycle.v). BGen cs = any command sequence, BReset rs = detach + attach or reinit for register size rs.
+   All statements hold for ALL histories h, start states b0 and command sequences cs. *)
+Module BM := BuilderModel. Module BD := BuilderDirty. Module BL := BuilderLifecycle.
+
+(* what a reset leaves behind, field by field: everything but the dirty flag has its initial value *)
+Theorem C16_builder_reset_fields :
+  forall h rs b0, let b := fold_left BD.do_bl (h ++ [BD.BReset rs]) b0 in
+    BM.active b = [BM.sec_node 0%Z] /\ BM.cursor b = Some 0%nat /\ BM.pool b = [] /\ BM.links b = [] /\
+    BM.nlabels b = 0%Z /\ BM.nsections b = 1%Z /\ BM.regsize b = rs /\
+    BM.p_opts b = 0%Z /\ BM.p_exsig b = 0%Z /\ BM.p_exid b = 0%Z /\ BM.p_comment b = None /\
+    BM.cur_func b = None /\ BM.lpool b = None /\ BM.gpool b = None.
+Proof. exact BL.reset_fields. Qed.
+Print Assumptions C16_builder_reset_fields.
+
+Theorem C16_builder_reset_idempotent :
+  forall b rs, BD.do_bl (BD.do_bl b (BD.BReset rs)) (BD.BReset rs) = BD.do_bl b (BD.BReset rs).
+Proof. exact BL.reset_idempotent. Qed.
+Print Assumptions C16_builder_reset_idempotent.
+
+(* the last reset wins, also when the register size changes in between (x86-32 <-> x86-64 re-initialisation) *)
+Theorem C16_builder_last_reset_wins :
+  forall h1 h2 rs1 rs2 b0, exists d,
+    fold_left BD.do_bl (h1 ++ [BD.BReset rs1] ++ h2 ++ [BD.BReset rs2]) b0 = BD.recycled_state rs2 d.
+Proof. exact BL.last_reset_wins. Qed.
+Print Assumptions C16_builder_last_reset_wins.
+
+(* C08's structural invariants (cursor inside the node list, section-link cache valid-or-dirty, section nodes unique) hold after
+   ANY history of generation and resets *)
+Theorem C16_builder_lifecycle_invariants :
+  forall h b0, BL.inv b0 -> BL.inv (fold_left BD.do_bl h b0).
+Proof. exact BL.lifecycle_invariants. Qed.
+Print Assumptions C16_builder_lifecycle_invariants.
+
+(* finalize() of a recycled builder serializes exactly the emitter calls of a fresh builder *)
+Theorem C16_recycled_builder_serializes_like_fresh :
+  forall rs d cs, forallb BD.supported cs = true ->
+    BM.replay (BM.run (BD.recycled_state rs d) cs) = BM.replay (BM.run (BM.init_state rs) cs) /\
+    BM.trace (BM.replay (BM.run (BD.recycled_state rs d) cs)) = BM.trace (BM.replay (BM.run (BM.init_state rs) cs)).
+Proof. exact BL.recycled_builder_serializes_like_fresh. Qed.
+Print Assumptions C16_recycled_builder_serializes_like_fresh.
+
+Theorem C16_builder_history_serializes_like_fresh :
+  forall h rs cs b0, forallb BD.supported cs = true ->
+    BM.trace (BM.replay (BM.run (fold_left BD.do_bl (h ++ [BD.BReset rs]) b0) cs)) = BM.trace (BM.replay (BM.run (BM.init_state rs) cs)).
+Proof. exact BL.history_serializes_like_fresh. Qed.
+Print Assumptions C16_builder_history_serializes_like_fresh.
+
+(* detach + attach on a holder that keeps its nl labels and ns sections = a fresh builder attached to that holder *)
+Theorem C16_reattached_builder_equals_fresh_on_holder :
+  forall rs nl ns d cs, forallb BD.supported cs = true ->
+    BD.same (BM.run (BL.reattached_state rs nl ns d) cs) (BM.run (BL.fresh_on_holder rs nl ns) cs) /\
+    BD.run_errors (BL.reattached_state rs nl ns d) cs = BD.run_errors (BL.fresh_on_holder rs nl ns) cs.
+Proof. exact BL.reattached_builder_equals_fresh_on_holder. Qed.
+Print Assumptions C16_reattached_builder_equals_fresh_on_holder.
+
+(* nothing of the earlier use can be named after a reset: no label id, no section but .text, no open function *)
+Theorem C16_no_label_survives_reset :
+  forall h rs b0 l, snd (BM.step (fold_left BD.do_bl (h ++ [BD.BReset rs]) b0) (BM.CBind l)) = BM.kInvalidLabel.
+Proof. exact BL.no_label_survives_reset. Qed.
+Print Assumptions C16_no_label_survives_reset.
+
+Theorem C16_no_section_survives_reset :
+  forall h rs b0 s, s <> 0%Z -> snd (BM.step (fold_left BD.do_bl (h ++ [BD.BReset rs]) b0) (BM.CSection s)) = BM.kInvalidSection.
+Proof. exact BL.no_section_survives_reset. Qed.
+Print Assumptions C16_no_section_survives_reset.
+
+Theorem C16_no_open_function_survives_reset :
+  forall h rs b0, snd (BM.step (fold_left BD.do_bl (h ++ [BD.BReset rs]) b0) BM.CEndFunc) = BM.kInvalidState.
+Proof. exact BL.no_open_function_survives_reset. Qed.
+Print Assumptions C16_no_open_function_survives_reset.
+
+(* C08's main theorem carries over to a recycled builder: what it serializes groups, section by section, exactly like the calls made *)
+Theorem C16_recycled_replay_is_grouping :
+  forall rs d cs, forallb BD.supported cs = true -> Forall BuilderGrouping.emitter cs -> BM.all_ok (BM.init_state rs) cs = true ->
+    let b := BM.run (BD.recycled_state rs d) cs in
+    (forall s, BM.project s (BM.trace (BM.replay b)) = BM.project s (BM.trace cs)) /\
+    (forall x, In x (BM.sec_seq (BM.active b)) <-> x = 0%Z \/ In (BM.ESection x) (BM.trace cs)) /\
+    NoDup (BM.sec_seq (BM.active b)).
+Proof. exact BL.recycled_replay_is_grouping. Qed.
+Print Assumptions C16_recycled_replay_is_grouping.
+
+(* ... so for any assembler that treats sections independently (C03/C04's hypothesis in C08) the image of a recycled builder is the
+   image of the calls made *)
+Theorem C16_recycled_same_image_if_order_irrelevant :
+  forall (image : Type) (asm : list BM.ecall -> image),
+    (forall es es', (forall s, BM.project s es = BM.project s es') -> asm es = asm es') ->
+    forall rs d cs, forallb BD.supported cs = true -> Forall BuilderGrouping.emitter cs -> BM.all_ok (BM.init_state rs) cs = true ->
+      asm (BM.trace (BM.replay (BM.run (BD.recycled_state rs d) cs))) = asm (BM.trace cs).
+Proof. exact BL.recycled_same_image_if_order_irrelevant. Qed.
+Print Assumptions C16_recycled_same_image_if_order_irrelevant.
+
+(* splitting a program over any number of generate calls changes nothing *)
+Theorem C16_generate_in_pieces :
+  forall ps s, fold_left BD.do_bl (map BD.BGen ps) s = BD.do_bl s (BD.BGen (concat ps)).
+Proof. exact BL.generate_pieces_any. Qed.
+Print Assumptions C16_generate_in_pieces.
+
+(* histories that also contain detach + attach (the holder keeps its labels and sections): invariants, irrelevance, fields *)
+Theorem C16_builder_lifecycle2_invariants :
+  forall h b0, BL.inv b0 -> BL.inv (fold_left BL.do_bl2 h b0).
+Proof. exact BL.lifecycle2_invariants. Qed.
+Print Assumptions C16_builder_lifecycle2_invariants.
+
+Theorem C16_reattach_history_irrelevant :
+  forall h cs b0, forallb BD.supported cs = true ->
+    let b := fold_left BL.do_bl2 h b0 in
+    BD.same (BM.run (BL.do_bl2 b BL.B2Reattach) cs) (BM.run (BL.fresh_on_holder (BM.regsize b) (BM.nlabels b) (BM.nsections b)) cs) /\
+    BD.run_errors (BL.do_bl2 b BL.B2Reattach) cs = BD.run_errors (BL.fresh_on_holder (BM.regsize b) (BM.nlabels b) (BM.nsections b)) cs.
+Proof. exact BL.reattach_history_irrelevant. Qed.
+Print Assumptions C16_reattach_history_irrelevant.
+
+Theorem C16_reattach_fields :
+  forall b, let b' := BL.do_bl2 b BL.B2Reattach in
+    BM.active b' = [BM.sec_node 0%Z] /\ BM.cursor b' = Some 0%nat /\ BM.pool b' = [] /\ BM.cur_func b' = None /\ BM.lpool b' = None /\
+    BM.gpool b' = None /\ BM.p_opts b' = 0%Z /\ BM.p_comment b' = None /\
+    BM.nlabels b' = BM.nlabels b /\ BM.nsections b' = BM.nsections b /\ BM.regsize b' = BM.regsize b.
+Proof. exact BL.reattach_fields. Qed.
+Print Assumptions C16_reattach_fields.
+
+(* the recycled builder differs from the fresh one in the dirty flag ONLY *)
+Theorem C16_recycled_differs_only_in_dirty :
+  forall rs d, BD.recycled_state rs false = BM.init_state rs /\ BD.strip (BD.recycled_state rs d) = BD.strip (BM.init_state rs) /\
+               BM.dirty (BD.recycled_state rs d) = d.
+Proof. exact BL.recycled_differs_only_in_dirty. Qed.
+Print Assumptions C16_recycled_differs_only_in_dirty.
+
+(* every command a node list serializes to is supported, so re-recording ANY serialized node list into a recycled builder gives what
+   a fresh builder gives -- no side condition *)
+Theorem C16_rerecord_into_recycled_builder :
+  forall rs d b, (forallb BD.supported (BM.replay b) = true) /\
+    BD.same (BM.run (BD.recycled_state rs d) (BM.replay b)) (BM.run (BM.init_state rs) (BM.replay b)) /\
+    BD.run_errors (BD.recycled_state rs d) (BM.replay b) = BD.run_errors (BM.init_state rs) (BM.replay b).
+Proof. intros rs d b. split; [apply BL.replay_supported | apply BL.rerecord_into_recycled_builder]. Qed.
+Print Assumptions C16_rerecord_into_recycled_builder.
+
+(* one Builder / Compiler reused for a whole series of programs (a reset before each): every program is serialized exactly as a
+   fresh builder would serialize it, whatever came before *)
+Theorem C16_every_program_of_a_series_is_fresh :
+  forall ps b, forallb (fun p => forallb BD.supported (snd p)) ps = true ->
+    BL.series b ps = map (fun p => BM.trace (BM.replay (BM.run (BM.init_state (fst p)) (snd p)))) ps.
+Proof. exact BL.every_program_of_a_series_is_fresh. Qed.
+Print Assumptions C16_every_program_of_a_series_is_fresh.
+
 (* more generally: any two builders that agree up to the link cache and whose caches are valid-or-dirty (an invariant of every run,
    BuilderLinks.links_ok_run) stay so and report the same errors *)
 Theorem C16_dirty_flag_harmless :
@@ -149,6 +328,93 @@ Theorem C16_logging_and_heap_steps_erasable :
     s_core (run h s1) = s_core (run (erase_ambient h) s2) /\ s_valid (run h s1) = s_valid (run (erase_ambient h) s2).
 Proof. exact erase_ambient_same_core. Qed.
 Print Assumptions C16_logging_and_heap_steps_erasable.
+
+(* ------------------------------------------------------------------ full-strength statements about the lifecycle steps *)
+Theorem C16_reset_like_idempotent :
+  forall r1 r2 s, ready s = true -> reset_like r1 = true -> reset_like r2 = true ->
+    s_core (do_step r2 (do_step r1 s)) = s_core (do_step r1 s).
+Proof. exact reset_like_idempotent. Qed.
+Print Assumptions C16_reset_like_idempotent.
+
+(* what a reset-like step must NOT change: the persistent configuration and the emitter's own logger *)
+Theorem C16_reset_like_keeps_configuration :
+  forall r s, reset_like r = true -> s_valid (do_step r s) = s_valid s /\ a_own (s_amb (do_step r s)) = a_own (s_amb s).
+Proof. intros r s H. split; [apply reset_like_keeps_configuration | apply reset_like_keeps_own_logger]; exact H. Qed.
+Print Assumptions C16_reset_like_keeps_configuration.
+
+(* a holder reset drops the holder's logger, reinit keeps it *)
+Theorem C16_holder_logger_across_resets :
+  forall s, (forall p, a_hlog (s_amb (do_step (SReset p) s)) = false) /\ a_hlog (s_amb (do_step SReinit s)) = a_hlog (s_amb s).
+Proof. intros s. split; [intros p; apply holder_reset_drops_holder_logger | apply reinit_keeps_holder_logger]. Qed.
+Print Assumptions C16_holder_logger_across_resets.
+
+(* the effective logger of the emitter is its own logger, else the holder's: invariant of every script *)
+Theorem C16_logger_consistent :
+  forall h s, logger_consistent s -> logger_consistent (run h s).
+Proof. exact logger_consistent_run. Qed.
+Print Assumptions C16_logger_consistent.
+Example C16_logger_consistent_state0 : logger_consistent state0.
+Proof. reflexivity. Qed.
+
+(* a program never decreases a counter and never touches initialisation, attachment, configuration or loggers *)
+Theorem C16_program_is_monotone :
+  forall ops drel pend s, let s' := do_step (SProg ops drel pend) s in
+    (c_sec (s_core s) <= c_sec (s_core s') /\ c_lab (s_core s) <= c_lab (s_core s') /\ c_rel (s_core s) <= c_rel (s_core s') /\
+     c_vregs (s_core s) <= c_vregs (s_core s') /\ c_ja (s_core s) <= c_ja (s_core s'))%N /\
+    c_init (s_core s') = c_init (s_core s) /\ c_att (s_core s') = c_att (s_core s) /\
+    s_valid s' = s_valid s /\ s_amb s' = s_amb s.
+Proof. exact program_is_monotone. Qed.
+Print Assumptions C16_program_is_monotone.
+
+(* no label name and no library-created section survives a reset (within one holder life a name IS remembered:
+   LifecycleProofs.name_is_remembered_without_reset) *)
+Theorem C16_names_do_not_survive_reset :
+  forall h r s id, ready s = true -> reset_like r = true ->
+    c_lab (s_core (do_step (SProg [PNamed id] 0 false) (run (h ++ [r]) s))) = 1%N.
+Proof. exact names_do_not_survive_reset. Qed.
+Print Assumptions C16_names_do_not_survive_reset.
+
+Theorem C16_addrtab_does_not_survive_reset :
+  forall h r s, ready s = true -> reset_like r = true ->
+    c_sec (s_core (do_step (SProg [PAddrTab] 0 false) (run (h ++ [r]) s))) = 2%N.
+Proof. exact addrtab_does_not_survive_reset. Qed.
+Print Assumptions C16_addrtab_does_not_survive_reset.
+
+(* the line the harness prints after history ++ reset-like ++ neutral steps: everything but the two logger flags is the fresh value *)
+Theorem C16_observation_after_reset :
+  forall h r n s, ready s = true -> reset_like r = true -> forallb neutral n = true ->
+    firstn 2 (observe (run (h ++ r :: n) s)) = [1; 1]%N /\
+    firstn 3 (skipn 3 (observe (run (h ++ r :: n) s))) = [1; 0; 0]%N /\
+    skipn 8 (observe (run (h ++ r :: n) s)) = [0; 0; 0]%N.
+Proof. exact observation_after_reset. Qed.
+Print Assumptions C16_observation_after_reset.
+
+(* what detach + attach touches (emitter state) and what it must not touch (holder content, configuration) *)
+Theorem C16_detach_attach_scope :
+  forall s, let s' := do_step SDetachAttach s in
+    c_init (s_core s') = c_init (s_core s) /\ c_sec (s_core s') = c_sec (s_core s) /\ c_lab (s_core s') = c_lab (s_core s) /\
+    c_rel (s_core s') = c_rel (s_core s) /\ c_names (s_core s') = c_names (s_core s) /\ c_addrtab (s_core s') = c_addrtab (s_core s) /\
+    c_att (s_core s') = true /\ c_pending (s_core s') = false /\ c_nodes (s_core s') = 0%N /\ c_vregs (s_core s') = 0%N /\
+    c_ja (s_core s') = 0%N /\ c_final (s_core s') = false /\ c_lpool (s_core s') = false /\
+    s_valid s' = s_valid s /\ a_own (s_amb s') = a_own (s_amb s) /\ a_hlog (s_amb s') = a_hlog (s_amb s).
+Proof. exact detach_attach_scope. Qed.
+Print Assumptions C16_detach_attach_scope.
+
+(* a new emitter on the same holder: holder content kept, emitter state and emitter configuration at their defaults *)
+Theorem C16_new_emitter_scope :
+  forall s, let s' := do_step SNewEmitter s in
+    c_sec (s_core s') = c_sec (s_core s) /\ c_lab (s_core s') = c_lab (s_core s) /\ c_rel (s_core s') = c_rel (s_core s) /\
+    c_names (s_core s') = c_names (s_core s) /\ c_addrtab (s_core s') = c_addrtab (s_core s) /\
+    c_pending (s_core s') = false /\ c_vregs (s_core s') = 0%N /\ c_ja (s_core s') = 0%N /\
+    s_valid s' = false /\ a_own (s_amb s') = false /\ a_elog (s_amb s') = a_hlog (s_amb s).
+Proof. exact new_emitter_scope. Qed.
+Print Assumptions C16_new_emitter_scope.
+
+(* the observation trace has one line per step and is compositional *)
+Theorem C16_trace_compositional :
+  (forall h1 h2 s, trace (h1 ++ h2) s = (trace h1 s ++ trace h2 (run h1 s))%list) /\ (forall h s, length (trace h s) = length h).
+Proof. split; [exact trace_app | exact trace_length]. Qed.
+Print Assumptions C16_trace_compositional.
 
 (* the hypotheses above are satisfiable *)
 Example C16_ready_state0 : ready state0 = true.
